@@ -219,6 +219,60 @@ def work_jac(chunk, tier='quick'):
     return acc
 
 
+# ---------------------------------------------------------------------------------------------
+# the record of an object whose function was assigned after construction describes the function it holds NOW
+
+def work_fun_assigned(chunk):
+    import warnings
+    import numdifftools as nd
+    from mc.props import c04
+    acc = fw.Acc()
+    f, hess, size = c04.quartic(3)
+    x = np.array([0.3, 0.4, 0.5])
+    H = hess(x)
+
+    def other(t):
+        return np.dot(t, t) + np.exp(0.1 * t[0])
+    for entry, method, start in chunk:
+        fw.fresh_library_state()
+        case = ('fun-assigned', entry, method, start)
+        jc = dict(kind='fun-assigned', entry=entry, method=method, start=start)
+        try:
+            with warnings.catch_warnings():
+                warnings.simplefilter('ignore')
+                with np.errstate(all='ignore'):
+                    obj = getattr(nd, entry)(None if start == 'None' else other, method=method, full_output=True)
+                    if start == 'used-with-other-function':
+                        obj(x)
+                    obj.fun = f
+                    val, info = obj(x)
+        except Exception as e:      # noqa: BLE001
+            acc.case(case, nontrivial=True, cell='fun-assigned/%s' % entry, outcome='raised')
+            acc.violation('C02:%s:no-record:raised-%s:fun-assigned-after-construction' % (entry, type(e).__name__), jc,
+                          '%s built with %s, then .fun = f: %s: %s' % (entry, start, type(e).__name__, e), 1)
+            continue
+        val, est = np.asarray(val), np.abs(np.asarray(info.error_estimate, dtype=float))
+        want = H if entry == 'Hessian' else np.diag(H)
+        prob = None
+        if not (np.size(info.f_value) == 1 and float(np.ravel(info.f_value)[0]) == float(f(x))):
+            prob = ('f_value', 'info.f_value = %r but f(x) = %r for the function the object holds' % (np.asarray(info.f_value).tolist(), float(f(x))))
+        elif val.shape != want.shape or est.size != val.size:
+            prob = ('record-size', 'result %r, error_estimate %r' % (val.shape, est.shape))
+        else:
+            err = np.abs(val - want)
+            bad = ~(err <= K1 * est.reshape(val.shape) + 1e-3 * size(x))
+            if bad.any():
+                i = tuple(np.argwhere(bad)[0])
+                prob = ('dishonest-estimate', 'entry %r: value %r, exact %r, error %.3g > %g x estimate %.3g + floor %.3g'
+                        % (i, float(val[i]), float(want[i]), float(err[i]), K1, float(est.reshape(val.shape)[i]), 1e-3 * size(x)))
+        acc.case(case, nontrivial=True, cell='fun-assigned/%s' % entry, outcome=prob is None)
+        if prob:
+            acc.violation('C02:%s:%s:fun-assigned-after-construction' % (entry, prob[0]), jc,
+                          '%s(method=%r) built with %s, then .fun = f (quartic polynomial), called at %r: %s'
+                          % (entry, method, start, x.tolist(), prob[1]), 1)
+    return acc
+
+
 _run_multi_hess = run_multi
 
 
@@ -234,4 +288,6 @@ def run_multi(ctx):
     sp = sp + mat
     items = [(s, p) for s in sp for p in ridge.POINT_KINDS]
     acc.merge(ctx.pmap(work_jac, items, chunk=4, tier=ctx.tier))
+    from mc.props import c04
+    acc.merge(ctx.pmap(work_fun_assigned, [(e, m, st) for e in ('Hessian', 'Hessdiag') for m in c04.METHODS for st in c04.FUN_STARTS], chunk=3))
     return acc
